@@ -369,6 +369,9 @@ class Exec:
         c = norm(c)
         c = re.sub(r"for<'a> fn\(&'a T\) -> T \{<T as Clone>::clone\}", 'CloneFn', c)
         c = re.sub(r'::<[^<>]*(<[^<>]*(<[^<>]*(<[^<>]*>[^<>]*)*>[^<>]*)*>[^<>]*)*>$', '', c)  # trailing method generics
+        m = re.match(r'^<<<Lhs as MappedGenericSequence<.*>>::Mapped as GenericSequence<.*>>::Sequence as FromIterator<.*>>::from_iter', c)
+        if m:      # Lhs: a GenericSequence of the same length whose owned form is a GenericArray (scenario: a reference to a GenericArray)
+            return s.pick(s.index.get(('FromIterator', 'GenericArray', 'from_iter')))
         m = re.match(r'^<<<Self as MappedGenericSequence<.*>>::Mapped as GenericSequence<.*>>::Sequence as FromIterator<.*>>::from_iter', c)
         if m and s.self_binding:
             return s.pick(s.index.get(('FromIterator', s.self_binding.replace('&mut ', '').replace('&', ''), 'from_iter')))
